@@ -55,12 +55,37 @@ AllOps == UNION {{Code(t)[i] : i \in 1..Len(Code(t))} : t \in Thr}
 Atoms == {i.o : i \in {j \in AllOps : j.op \in {"ld", "st"}}}
 Mtxs == {i.o : i \in {j \in AllOps : j.op \in {"lock", "unlock", "trylock", "tunlock"}}}
 Ntfs == {i.o : i \in {j \in AllOps : j.op = "ntf"}}         \* the Notify of a JoinHandle: notified once, by the ending thread
+Chans == {i.o : i \in {j \in AllOps : j.op \in {"send", "recv", "tryrecv", "droprx"}}}
+Arcs == {i.o : i \in {j \in AllOps : j.op \in {"aclone", "adrop", "acount"}}}
+\* access slots of channels and Arcs: <<object, class, thread>> (thread 0: one slot for all threads)
+SlotKeys == UNION {{<<c, "send", 0>>, <<c, "recv", 0>>, <<c, "try", 0>>} : c \in Chans}
+            \cup UNION {{<<a, "dec", 0>>} \cup {<<a, k, t>> : k \in {"inc", "ins"}, t \in Thr} : a \in Arcs}
+IsSlotOp(i) == i.op \in {"send", "recv", "drain", "tryrecv", "aclone", "adrop", "acount"}
+\* rt/mpsc.rs State::dependent_accesses, rt/arc.rs State::dependent_accesses
+DepKeys(i) ==
+  CASE i.op = "send"    -> {<<i.o, "send", 0>>, <<i.o, "try", 0>>}
+    [] i.op \in {"recv", "drain"} -> {<<i.o, "recv", 0>>}
+    [] i.op = "tryrecv" -> {<<i.o, "recv", 0>>, <<i.o, "send", 0>>}
+    [] i.op = "aclone"  -> {<<i.o, "ins", t>> : t \in Thr}
+    [] i.op = "adrop"   -> {<<i.o, "dec", 0>>} \cup {<<i.o, "ins", t>> : t \in Thr}
+    [] i.op = "acount"  -> {<<i.o, "dec", 0>>} \cup {<<i.o, "inc", t>> : t \in Thr}
+\* ... set_last_access
+SetKeys(i, t) ==
+  CASE i.op = "send"    -> {<<i.o, "send", 0>>}
+    [] i.op \in {"recv", "drain"} -> {<<i.o, "recv", 0>>}
+    [] i.op = "tryrecv" -> {<<i.o, "recv", 0>>, <<i.o, "try", 0>>}
+    [] i.op = "aclone"  -> {<<i.o, "inc", t>>}
+    [] i.op = "adrop"   -> {<<i.o, "dec", 0>>}
+    [] i.op = "acount"  -> {<<i.o, "ins", t>>}
+\* main may do things before it spawns the others (pseudo-operation "spawnall", no scheduling point); without it
+\* all threads exist from the start
+HasSpawn == \E i \in 1..Len(Code(1)) : Code(1)[i].op = "spawnall"
 BoundOf(i) == IF BoundList[i] = 99 THEN -1 ELSE BoundList[i]
 StVal(t, i) == 10 * t + i                      \* every store writes its own value
 
 (* ------------------------------------------------------------ execution *)
 Ex0 == [pc |-> [t \in Thr |-> 1],
-        st |-> [t \in Thr |-> "runnable"],
+        st |-> [t \in Thr |-> IF t = 1 \/ ~HasSpawn THEN "runnable" ELSE "unspawned"],
         op |-> [t \in Thr |-> NoOp],
         vv |-> [t \in Thr |-> ZeroVV],
         yc |-> [t \in Thr |-> 0],
@@ -70,6 +95,12 @@ Ex0 == [pc |-> [t \in Thr |-> 1],
         la |-> [o \in Atoms \cup Mtxs \cup Ntfs |-> NoAcc],          \* last_access
         ls |-> [o \in Atoms |-> NoAcc],                      \* last_non_load_access
         ll |-> [o \in Atoms |-> [t \in Thr |-> NoAcc]],      \* last_load_accesses
+        acc |-> [k \in SlotKeys |-> NoAcc],                 \* channel / Arc access slots
+        chq |-> [c \in Chans |-> <<>>],                     \* queued messages
+        closed |-> [c \in Chans |-> FALSE],                 \* receiver dropped
+        cnt |-> [a \in Arcs |-> 1],                        \* strong count: main creates the Arc (and clones it for the others)
+        tok |-> [t \in Thr |-> FALSE],                      \* park token
+        parked |-> [t \in Thr |-> FALSE],
         regs |-> [t \in Thr |-> <<>>],
         sched |-> <<>>]                                      \* threads chosen so far (history)
 
@@ -86,6 +117,22 @@ RunToBranch(e, a) ==
        IF ins.op = "unlock" THEN RunToBranch([Release(e, a, ins.o) EXCEPT !.pc[a] = @ + 1], a)
        ELSE IF ins.op = "tunlock"
             THEN RunToBranch([(IF e.holder[ins.o] = a THEN Release(e, a, ins.o) ELSE e) EXCEPT !.pc[a] = @ + 1], a)
+       \* thread::spawn is no scheduling point; Execution::new_thread: the child inherits the spawner's DPOR clock
+       ELSE IF ins.op = "spawnall"
+            THEN RunToBranch([e EXCEPT !.pc[a] = @ + 1,
+                                       !.st = [u \in Thr |-> IF e.st[u] = "unspawned" THEN "runnable" ELSE e.st[u]],
+                                       !.vv = [u \in Thr |-> IF e.st[u] = "unspawned" THEN e.vv[a] ELSE e.vv[u]]], a)
+       \* Thread::unpark is no scheduling point: wake the target if it is parked, else leave the token
+       ELSE IF ins.op = "unpark"
+            THEN LET u == ins.o IN
+                 RunToBranch([(IF e.parked[u] THEN [e EXCEPT !.parked[u] = FALSE, !.st[u] = "runnable"]
+                               ELSE [e EXCEPT !.tok[u] = TRUE]) EXCEPT !.pc[a] = @ + 1], a)
+       \* thread::park with a token: consumed, no scheduling point
+       ELSE IF ins.op = "park" /\ e.tok[a]
+            THEN RunToBranch([e EXCEPT !.tok[a] = FALSE, !.pc[a] = @ + 1], a)
+       \* Receiver::drop: drain (one recv per queued message), then close
+       ELSE IF ins.op = "droprx" /\ e.chq[ins.o] = <<>>
+            THEN RunToBranch([e EXCEPT !.closed[ins.o] = TRUE, !.pc[a] = @ + 1], a)
             ELSE e
 
 \* ... and announces its next operation (rt::branch closure / yield_now / thread_done)
@@ -95,6 +142,9 @@ Arrive(e0, a) ==
   ELSE LET ins == Code(a)[e.pc[a]] IN
        CASE ins.op = "yield" -> [e EXCEPT !.op[a] = NoOp, !.st[a] = "yield", !.yc[a] = @ + 1, !.pc[a] = @ + 1]
          [] ins.op = "lock"  -> [e EXCEPT !.op[a] = ins, !.st[a] = IF e.holder[ins.o] # 0 THEN "blocked" ELSE @]
+         [] ins.op = "recv"  -> [e EXCEPT !.op[a] = ins, !.st[a] = IF e.chq[ins.o] = <<>> THEN "blocked" ELSE @]
+         [] ins.op = "droprx" -> [e EXCEPT !.op[a] = [op |-> "drain", o |-> ins.o]]       \* non-empty (RunToBranch)
+         [] ins.op = "park"  -> [e EXCEPT !.op[a] = NoOp, !.st[a] = "blocked", !.parked[a] = TRUE, !.pc[a] = @ + 1]
          [] OTHER            -> [e EXCEPT !.op[a] = ins]
 
 (* ------------------------------------------------- object access tracking *)
@@ -102,8 +152,12 @@ IsAtomOp(i) == i.op \in {"ld", "st"}
 Dependents(e, o) == {a \in {e.ls[o]} \cup {e.ll[o][t] : t \in Thr} : a.pid # 0}
 
 \* Store::last_dependent_access
+SlotDeps(e, ins) == {a \in {e.acc[k] : k \in DepKeys(ins)} : a.pid # 0}
 LastDep(e, ins, v) ==
-  IF ~IsAtomOp(ins) THEN e.la[ins.o]
+  IF IsSlotOp(ins)
+  THEN LET C == {a \in SlotDeps(e, ins) : ~Leq(a.vv, v)} IN
+       IF C = {} THEN NoAcc ELSE CHOOSE a \in C : \A b \in C : b.pid <= a.pid
+  ELSE IF ~IsAtomOp(ins) THEN e.la[ins.o]
   ELSE IF Rule = "single" THEN (IF ins.op = "ld" THEN e.ls[ins.o] ELSE e.la[ins.o])
   ELSE IF ins.op = "ld" THEN e.ls[ins.o]
   ELSE LET C == {a \in Dependents(e, ins.o) : ~Leq(a.vv, v)} IN
@@ -114,15 +168,17 @@ JoinAll(v, S) == IF S = {} THEN v ELSE LET a == CHOOSE a \in S : TRUE IN JoinAll
 
 \* Store::join_dependent_accesses
 JoinDep(e, ins, v) ==
-  IF ~IsAtomOp(ins) \/ Rule = "single" THEN Join(v, LastDep(e, ins, v).vv)
+  IF IsSlotOp(ins) THEN JoinAll(v, SlotDeps(e, ins))
+  ELSE IF ~IsAtomOp(ins) \/ Rule = "single" THEN Join(v, LastDep(e, ins, v).vv)
   ELSE IF ins.op = "ld" THEN Join(v, e.ls[ins.o].vv)
   ELSE JoinAll(v, Dependents(e, ins.o))
 
 \* Store::set_last_access
 SetLast(e, ins, t, pid, v) ==
   LET a == [pid |-> pid, vv |-> v]
-      e1 == [e EXCEPT !.la[ins.o] = a] IN
-  IF ~IsAtomOp(ins) THEN e1
+      e1 == IF IsSlotOp(ins) THEN e ELSE [e EXCEPT !.la[ins.o] = a] IN
+  IF IsSlotOp(ins) THEN [e EXCEPT !.acc = [k \in SlotKeys |-> IF k \in SetKeys(ins, t) THEN a ELSE e.acc[k]]]
+  ELSE IF ~IsAtomOp(ins) THEN e1
   ELSE IF ins.op = "ld" THEN [e1 EXCEPT !.ll[ins.o][t] = a]
   ELSE [e1 EXCEPT !.ls[ins.o] = a]
 
@@ -177,14 +233,31 @@ Perform(e, t) ==
     [] ins.op = "trylock" -> IF e.holder[ins.o] # 0 THEN [e EXCEPT !.regs[t] = Append(@, 0), !.pc[t] = @ + 1]
                              ELSE [Acquire(e, t, ins.o) EXCEPT !.regs[t] = Append(@, 1), !.pc[t] = @ + 1]
     [] ins.op = "ntf"     -> [e EXCEPT !.pc[t] = @ + 1]
+    \* Channel::send: nothing is queued once the receiver is gone; the first message wakes the receiver
+    [] ins.op = "send"    -> IF e.closed[ins.o] THEN [e EXCEPT !.pc[t] = @ + 1]
+                             ELSE [e EXCEPT !.chq[ins.o] = Append(@, StVal(t, e.pc[t])), !.pc[t] = @ + 1,
+                                            !.st = [u \in Thr |-> IF u # t /\ e.chq[ins.o] = <<>> /\ e.op[u].o = ins.o
+                                                                  THEN "runnable" ELSE e.st[u]]]
+    [] ins.op = "recv"    -> [e EXCEPT !.regs[t] = Append(@, Head(e.chq[ins.o])), !.chq[ins.o] = Tail(@), !.pc[t] = @ + 1]
+    [] ins.op = "drain"   -> [e EXCEPT !.chq[ins.o] = Tail(@)]                        \* pc stays: the drop loop goes on
+    [] ins.op = "tryrecv" -> IF e.chq[ins.o] = <<>> THEN [e EXCEPT !.regs[t] = Append(@, 0), !.pc[t] = @ + 1]
+                             ELSE [e EXCEPT !.regs[t] = Append(@, Head(e.chq[ins.o])), !.chq[ins.o] = Tail(@), !.pc[t] = @ + 1]
+    [] ins.op = "aclone"  -> [e EXCEPT !.cnt[ins.o] = @ + 1, !.pc[t] = @ + 1]
+    [] ins.op = "adrop"   -> [e EXCEPT !.cnt[ins.o] = @ - 1, !.pc[t] = @ + 1]
+    [] ins.op = "acount"  -> [e EXCEPT !.regs[t] = Append(@, e.cnt[ins.o]), !.pc[t] = @ + 1]
     [] OTHER              -> e
 
 (* --------------------------------------------------- reference semantics *)
 \* all outcomes of the program under full interleaving (sequentially consistent memory)
 RECURSIVE RefFrom(_)
 RefFrom(s) ==
-  LET Live == {t \in Thr : s.pc[t] <= Len(Code(t))}
-      En == {t \in Live : LET i == Code(t)[s.pc[t]] IN i.op = "lock" => s.holder[i.o] = 0}
+  LET Spawned == ~HasSpawn \/ (\E i \in 1..(s.pc[1] - 1) : Code(1)[i].op = "spawnall")
+      Live == {t \in Thr : s.pc[t] <= Len(Code(t))}
+      En == {t \in Live : LET i == Code(t)[s.pc[t]] IN
+                             /\ (t = 1 \/ Spawned)
+                             /\ i.op = "lock" => s.holder[i.o] = 0
+                             /\ i.op = "recv" => s.chq[i.o] # <<>>
+                             /\ i.op = "park" => s.tok[t]}
       StepOf(t) ==
         LET i == Code(t)[s.pc[t]]  s1 == [s EXCEPT !.pc[t] = @ + 1] IN
         CASE i.op = "ld"      -> [s1 EXCEPT !.regs[t] = Append(@, s.val[i.o])]
@@ -194,11 +267,22 @@ RefFrom(s) ==
           [] i.op = "trylock" -> IF s.holder[i.o] # 0 THEN [s1 EXCEPT !.regs[t] = Append(@, 0)]
                                  ELSE [s1 EXCEPT !.holder[i.o] = t, !.regs[t] = Append(@, 1)]
           [] i.op = "tunlock" -> IF s.holder[i.o] = t THEN [s1 EXCEPT !.holder[i.o] = 0] ELSE s1
+          [] i.op = "send"    -> IF s.closed[i.o] THEN s1 ELSE [s1 EXCEPT !.chq[i.o] = Append(@, StVal(t, s.pc[t]))]
+          [] i.op = "recv"    -> [s1 EXCEPT !.regs[t] = Append(@, Head(s.chq[i.o])), !.chq[i.o] = Tail(@)]
+          [] i.op = "tryrecv" -> IF s.chq[i.o] = <<>> THEN [s1 EXCEPT !.regs[t] = Append(@, 0)]
+                                 ELSE [s1 EXCEPT !.regs[t] = Append(@, Head(s.chq[i.o])), !.chq[i.o] = Tail(@)]
+          [] i.op = "droprx"  -> [s1 EXCEPT !.chq[i.o] = <<>>, !.closed[i.o] = TRUE]
+          [] i.op = "aclone"  -> [s1 EXCEPT !.cnt[i.o] = @ + 1]
+          [] i.op = "adrop"   -> [s1 EXCEPT !.cnt[i.o] = @ - 1]
+          [] i.op = "acount"  -> [s1 EXCEPT !.regs[t] = Append(@, s.cnt[i.o])]
+          [] i.op = "park"    -> [s1 EXCEPT !.tok[t] = FALSE]
+          [] i.op = "unpark"  -> [s1 EXCEPT !.tok[i.o] = TRUE]
           [] OTHER            -> s1
   IN IF Live = {} THEN {[end |-> "ok", regs |-> s.regs]}
      ELSE IF En = {} THEN {[end |-> "deadlock", regs |-> <<>>]}
      ELSE UNION {RefFrom(StepOf(t)) : t \in En}
-RefOutcomes == RefFrom([pc |-> Ex0.pc, val |-> Ex0.val, holder |-> Ex0.holder, regs |-> Ex0.regs])
+RefOutcomes == RefFrom([pc |-> Ex0.pc, val |-> Ex0.val, holder |-> Ex0.holder, regs |-> Ex0.regs,
+                        chq |-> Ex0.chq, closed |-> Ex0.closed, cnt |-> Ex0.cnt, tok |-> Ex0.tok])
 NOps == LET RECURSIVE Sum(_) Sum(t) == IF t > N THEN 0 ELSE Len(Code(t)) + Sum(t + 1) IN Sum(1)
 
 (* ---------------------------------------------------------- the machine *)
@@ -230,7 +314,8 @@ Step ==
              IN /\ UNCHANGED prog
                 /\ IF dead \/ ~s.ok                               \* a deadlock panics: the run is over
                    THEN /\ resB' = Append(resB, [res |-> res1, iters |-> Cardinality(scheds) + 1,
-                                                 repeat |-> r.e.sched \in scheds, scheds |-> scheds \cup {r.e.sched}])
+                                                 repeat |-> r.e.sched \in scheds, scheds |-> scheds \cup {r.e.sched},
+                                                 deadsched |-> IF dead THEN r.e.sched ELSE <<>>])
                         /\ NextBound
                    ELSE /\ results' = res1 /\ scheds' = scheds \cup {r.e.sched}
                         /\ path' = s.p /\ ex' = Ex0
@@ -260,5 +345,5 @@ Saturates == phase = "done" => \A i \in 1..Len(resB) :
 
 Report == (Emit /\ phase = "done") =>
             PrintT(<<"DPOR", ToJson([prog |-> prog, ref |-> RefOutcomes, runs |-> [i \in 1..Len(resB) |->
-                        [bound |-> BoundList[i], iters |-> resB[i].iters, res |-> resB[i].res, scheds |-> resB[i].scheds]]])>>)
+                        [bound |-> BoundList[i], iters |-> resB[i].iters, res |-> resB[i].res, scheds |-> resB[i].scheds, deadsched |-> resB[i].deadsched]]])>>)
 =============================================================================
